@@ -118,6 +118,20 @@ def run(tier, out, model_ok, proof):
     cases = [name_case("n%d" % i, nm) for i, nm in enumerate(names)]
     gcs = graph_cases(rng, 3000 if tier == "thorough" else 400)
     cases += gcs
+    # the root file handed over under another name (unnamed in-memory file, relative names) with
+    # the project directory as working directory: only the accesses are judged for these
+    variants = []
+    vnames = ["a", "b/a", "../decoy.jst", "b/../a", "./a", "missing.jst", "b", '"a"', "..", "/etc/passwd"] + rng.sample(names, 60 if tier != "thorough" else 600)
+    for k, rn in enumerate(["empty", "rel", "dotrel"]):
+        for i, nm in enumerate(vnames):
+            c = name_case("v%s%d" % (rn, i), nm)
+            c["rootname"] = rn
+            variants.append(c)
+        for i, gc in enumerate(gcs[:40]):
+            c = dict(gc)
+            c["id"] = "w%s%d" % (rn, i)
+            c["rootname"] = rn
+            variants.append(c)
     sdir = tempfile.mkdtemp(prefix="verif-strace-")
     try:
         if model_ok:
@@ -126,6 +140,7 @@ def run(tier, out, model_ok, proof):
             lines = [json.dumps(c) for c in cases]
             g, crashes = treecorr.run_isolated(os.path.join(BUILD, "harness"), ["tree"], lines, shards=8, strace_dir=sdir)
             m, mism = {}, []
+        vg, vcr = treecorr.run_isolated(os.path.join(BUILD, "harness"), ["tree"], [json.dumps(c) for c in variants], shards=8, strace_dir=sdir)
         acc = {}
         for f in os.listdir(sdir):
             acc.update(treecorr.parse_strace(os.path.join(sdir, f)))
@@ -165,6 +180,21 @@ def run(tier, out, model_ok, proof):
             if exp is None and ("recursion" in msg or "incorrect parameter (Filename)" in msg):
                 out.violations.append({"what": "an acyclic include graph over existing files was rejected: %r" % msg[:80], "class": "dag-rejected",
                                        "input": {n: bytes.fromhex(h).decode("latin1") for n, h in c["files"].items()}})
+    vtouched = 0
+    for c in variants:
+        a = acc.get(c["id"])
+        if a is None:
+            continue
+        vtouched += 1 if a else 0
+        bad = [p for k, p in a if p == ".." or p.startswith("../") or p.startswith("/")]
+        if bad:
+            outside += 1
+            out.violations.append({"what": "a path outside the project was accessed (root file handed over as %s, working directory = project): %s" % (c["rootname"], bad[:3]),
+                                   "class": "outside-access",
+                                   "input": {n: bytes.fromhex(h).decode("latin1") for n, h in c["files"].items() if n == "root.jst" or c["id"].startswith("w")}})
+        elif vg.get(c["id"], {}).get("scan") == "panic":
+            out.violations.append({"what": "panic with the root file handed over as %s: %s" % (c["rootname"], vg[c["id"]].get("panic", "")[:100]), "class": "panic",
+                                   "input": {"root.jst": bytes.fromhex(c["files"]["root.jst"]).decode("latin1")}})
     for x in mism[:40]:
         out.broken.append({"what": "directive-layer model and implementation disagree: " + x["what"],
                            "detail": {n: bytes.fromhex(h).decode("latin1") for n, h in x["case"]["files"].items() if n == "root.jst" or x["id"].startswith("g")}})
@@ -172,10 +202,10 @@ def run(tier, out, model_ok, proof):
     out.coverage.update({
         "evaluations": len(cases),
         "distinct_nontrivial": touched,
-        "rule": "INCLUDE <s> for every string s over {a b . / \\ \" blank} up to length %d (random beyond, plus a list of classic escapes) against a file system with decoy files outside the project root, and %d random include graphs over up to 5 files (cycles, diamonds, repeats, missing files, directories); every file-system call of the build is observed with strace between markers; non-trivial = the build touched the file system" % (6 if tier == "thorough" else 4, len(gcs)),
+        "rule": "INCLUDE <s> for every string s over {a b . / \\ \" blank} up to length %d (random beyond, plus a list of classic escapes) against a file system with decoy files outside the project root, and %d random include graphs over up to 5 files (cycles, diamonds, repeats, missing files, directories); the same names and graphs again with the root handed to the library as an unnamed in-memory file, as 'root.jst' and as './root.jst' (working directory = project; accesses only); every file-system call of the build is observed with strace between markers; non-trivial = the build touched the file system" % (6 if tier == "thorough" else 4, len(gcs)),
         "samples": [bytes.fromhex(c["files"]["root.jst"]).decode("latin1") for c in cases[:3] + gcs[:2]],
         "traces_validated_against_impl": len(cases) - len(mism) - logdiff if model_ok else 0,
-        "outside_accesses": outside,
+        "outside_accesses": outside, "root_name_variants": len(variants), "root_name_variants_touching_fs": vtouched,
         "access_log_differences": logdiff,
         "graph_verdicts": verdicts,
         "correspondence_mismatches": len(mism),
